@@ -28,17 +28,21 @@ ASIds == {ASId(k, c, e) : k \in 1..2, c \in 4..6, e \in Expiries}
 ChainOf(a) == <<a, Pool[a].signer>>
 
 Timelines == <<
-    [nb1 |-> -100, na1 |-> 100, nb2 |-> -5, na2 |-> 200, grace |-> 10, two |-> TRUE],    \* in grace
-    [nb1 |-> -100, na1 |-> -2, nb2 |-> -5, na2 |-> 200, grace |-> 10, two |-> TRUE],     \* in grace, predecessor expired
-    [nb1 |-> -100, na1 |-> 100, nb2 |-> -5, na2 |-> 200, grace |-> 7, two |-> TRUE],     \* in grace, ends before the chains
-    [nb1 |-> -100, na1 |-> 100, nb2 |-> -5, na2 |-> 3, grace |-> 12, two |-> TRUE],      \* grace outlasts the latest TRC
-    [nb1 |-> -100, na1 |-> 100, nb2 |-> -5, na2 |-> 200, grace |-> 3, two |-> TRUE],     \* grace over
-    [nb1 |-> -100, na1 |-> 100, nb2 |-> -5, na2 |-> 10, grace |-> 0, two |-> TRUE],      \* no grace, TRC ends before the chains
-    [nb1 |-> -100, na1 |-> 100, nb2 |-> 5, na2 |-> 200, grace |-> 10, two |-> TRUE],     \* latest not yet valid
-    [nb1 |-> -100, na1 |-> 100, nb2 |-> -50, na2 |-> -3, grace |-> 100, two |-> TRUE],   \* latest expired
-    [nb1 |-> -100, na1 |-> 12, nb2 |-> 0, na2 |-> 0, grace |-> 0, two |-> FALSE]         \* base TRC only
+    [nb1 |-> -100, na1 |-> 100, nb2 |-> -5, na2 |-> 200, grace |-> 10, two |-> TRUE, keep |-> FALSE],    \* in grace
+    [nb1 |-> -100, na1 |-> -2, nb2 |-> -5, na2 |-> 200, grace |-> 10, two |-> TRUE, keep |-> FALSE],     \* in grace, predecessor expired
+    [nb1 |-> -100, na1 |-> 100, nb2 |-> -5, na2 |-> 200, grace |-> 7, two |-> TRUE, keep |-> FALSE],     \* in grace, ends before the chains
+    [nb1 |-> -100, na1 |-> 100, nb2 |-> -5, na2 |-> 3, grace |-> 12, two |-> TRUE, keep |-> FALSE],      \* grace outlasts the latest TRC
+    [nb1 |-> -100, na1 |-> 100, nb2 |-> -5, na2 |-> 200, grace |-> 3, two |-> TRUE, keep |-> FALSE],     \* grace over
+    [nb1 |-> -100, na1 |-> 100, nb2 |-> -5, na2 |-> 10, grace |-> 0, two |-> TRUE, keep |-> FALSE],      \* no grace, TRC ends before the chains
+    [nb1 |-> -100, na1 |-> 100, nb2 |-> 5, na2 |-> 200, grace |-> 10, two |-> TRUE, keep |-> FALSE],     \* latest not yet valid
+    [nb1 |-> -100, na1 |-> 100, nb2 |-> -50, na2 |-> -3, grace |-> 100, two |-> TRUE, keep |-> FALSE],   \* latest expired
+    [nb1 |-> -100, na1 |-> 12, nb2 |-> 0, na2 |-> 0, grace |-> 0, two |-> FALSE, keep |-> FALSE],        \* base TRC only
+    \* TRC updates that keep the root certificate: a chain verifies against the latest TRC AND its predecessor
+    [nb1 |-> -100, na1 |-> 100, nb2 |-> -5, na2 |-> 200, grace |-> 10, two |-> TRUE, keep |-> TRUE],    \* in grace
+    [nb1 |-> -100, na1 |-> 100, nb2 |-> -5, na2 |-> 200, grace |-> 3, two |-> TRUE, keep |-> TRUE]      \* grace over
 >>
-LatestT(tl) == IF tl.two THEN [serial |-> 2, base |-> 1, nb |-> tl.nb2, na |-> tl.na2, grace |-> tl.grace, roots |-> {2}]
+LatestT(tl) == IF tl.two THEN [serial |-> 2, base |-> 1, nb |-> tl.nb2, na |-> tl.na2, grace |-> tl.grace,
+                               roots |-> IF tl.keep THEN {1} ELSE {2}]
                ELSE [serial |-> 1, base |-> 1, nb |-> tl.nb1, na |-> tl.na1, grace |-> 0, roots |-> {1}]
 PredT(tl) == [serial |-> 1, base |-> 1, nb |-> tl.nb1, na |-> tl.na1, grace |-> 0, roots |-> {1}]
 
